@@ -7,6 +7,7 @@ observed stack = frames_of_path) -> `mismatches`, and 5 "judge" flags (library v
 `failures` with the scenario text as replayable input."""
 import concurrent.futures
 import os
+import threading
 
 import common
 import driver
@@ -44,6 +45,25 @@ class Scn:
         self.watch = []
         self.phases = []       # list of dict(sets=[(q,k,v,d)], items=[dict])
         self.expect_crash = []  # (what, qid)
+
+    def to_dict(self):
+        """everything needed to run and re-judge the scenario again (embedded in failure dicts for --replay)"""
+        return {"mode": self.mode, "nk": self.nk, "queues": [list(q) for q in self.queues], "watch": list(self.watch),
+                "phases": [{"sets": [list(x) for x in ph["sets"]],
+                            "items": [{k: it[k] for k in ("iid", "api", "qid", "ctx", "busy", "niter", "amode")} for it in ph["items"]]}
+                           for ph in self.phases],
+                "expect_crash": [list(x) for x in self.expect_crash], "want_posted": self.want_posted, "want_total": self.want_total}
+
+    @staticmethod
+    def from_dict(d):
+        s = Scn()
+        s.mode, s.nk = d["mode"], d["nk"]
+        s.queues = [tuple(q) for q in d["queues"]]
+        s.watch = list(d["watch"])
+        s.phases = [{"sets": [tuple(x) for x in ph["sets"]], "items": [dict(it) for it in ph["items"]]} for ph in d["phases"]]
+        s.expect_crash = [tuple(x) for x in d["expect_crash"]]
+        s.want_posted, s.want_total = d["want_posted"], d["want_total"]
+        return s
 
     def text(self):
         out = ["MODE " + self.mode, "NK %d" % self.nk]
@@ -242,9 +262,22 @@ def corpus():
 
 
 # ---------------------------------------------------------------------------------------------- running and parsing
-def run_scenario(exe, s):
-    r = common.run([exe], input=s.text(), timeout=90)
-    return r
+def run_scenario(exe, s, slow=1):
+    """one scenario = one process.  slow > 1: every limit of the harness scaled (isolation re-run)"""
+    env = dict(os.environ)
+    env["C18_SLOW"] = str(slow)
+    return common.run([exe], input=s.text(), timeout=150 * slow, env=env)
+
+
+def completed(r, res):
+    return r.returncode == 0 and res.get("E") == "ok" and res.get("C") is not None
+
+
+def parse_safe(r):
+    try:
+        return parse(r.stdout)
+    except (ValueError, IndexError):
+        return {"E": None, "C": None}
 
 
 def parse(out):
@@ -259,6 +292,8 @@ def parse(out):
             res["G"].append(tuple(map(int, t[1:])))
         elif t[0] == "D":
             v = list(map(int, t[1:]))
+            if len(v) % 3:
+                raise ValueError("truncated D line")
             res["D"].append(sorted(zip(v[0::3], v[1::3], v[2::3])))
         elif t[0] == "X":
             res["X"].append(tuple(map(int, t[1:])))
@@ -406,53 +441,62 @@ def split_top(txt):
 MODEL_CONSTS = [17, 18, 255, 131072, 394769]
 
 
-def correspond_frames(ctx):
-    exe, msg = common.build_harness("c18_frames", ["c18_frames.c"], whitebox=True)
-    if exe is None:
-        return {"mismatches": [{"what": "harness build failed (c18_frames)", "detail": msg}], "failures": [], "evaluations": 0}
-    rng = ctx.rng
-    nscn = 70 if ctx.tier == "quick" else 600
-    scns = corpus() + [gen_scenario(rng, i) for i in range(nscn)]
-    # destructor counts: ONLY a hint telling the harness how long to wait (it then waits a little longer to catch extra calls);
-    # the verdict compares the values the destructor was called with against Model/Frames.v
-    for s in scns:
-        live, posted = {}, 0
-        for ph in s.phases:
-            for (q, k, v, d) in ph["sets"]:
-                if k == 0:
-                    continue
-                if (q, k) in live and live[(q, k)]:
-                    posted += 1
-                if v:
-                    live[(q, k)] = d
-                else:
-                    live.pop((q, k), None)
-        s.want_posted = posted
-        s.want_total = posted + sum(1 for (q, k), d in live.items() if d and q < 100)
-    with concurrent.futures.ThreadPoolExecutor(max_workers=6) as ex:
-        outs = list(ex.map(lambda s: run_scenario(exe, s), scns))
-    mism, fails = [], []
-    dist = {"scenarios": len(scns), "mode_cf": 0, "mode_dm": 0, "probes": 0, "asserted_probes": 0, "assert_children": 0,
-            "by_kind": {}, "by_api": {}, "stack_depth": {}, "frames_skipped_by_redirect": 0, "ran_on_main_thread": 0,
-            "nested": 0, "busy": 0, "hierarchy_depth": {}, "set_specific_calls": 0, "destructor_calls": 0, "expected_crashes": 0,
-            "workloop_bottom": 0, "main_bottom_bound": 0, "main_bottom_unbound": 0, "distinct_stacks": 0}
-    body = []
-    book = []
-    for n, (s, r) in enumerate(zip(scns, outs)):
+def set_wait_hints(s):
+    """destructor counts: ONLY a hint telling the harness how long to wait (it then waits a little longer to catch extra calls);
+    the verdict compares the values the destructor was called with against Model/Frames.v"""
+    live, posted = {}, 0
+    for ph in s.phases:
+        for (q, k, v, d) in ph["sets"]:
+            if k == 0:
+                continue
+            if (q, k) in live and live[(q, k)]:
+                posted += 1
+            if v:
+                live[(q, k)] = d
+            else:
+                live.pop((q, k), None)
+    s.want_posted = posted
+    s.want_total = posted + sum(1 for (q, k), d in live.items() if d and q < 100)
+
+
+def coq_eval_retry(name, imports, body, timeout):
+    """driver.coq_eval under a per-process file name; a run that hit the wall-clock limit is repeated ONCE, alone, with 10x the
+    limit (machine load must not become a verdict); the case files are removed afterwards"""
+    name = "%s_p%d" % (name, os.getpid())
+    ok, vals, raw = driver.coq_eval(name, imports, body, timeout=timeout)
+    if not ok and "TIMEOUT" in raw:
+        with ISOLATED:
+            ok, vals, raw = driver.coq_eval(name, imports, body, timeout=10 * timeout)
+    for ext in (".v", ".vo", ".vok", ".vos", ".glob"):
         try:
-            res = parse(r.stdout)
-        except (ValueError, IndexError):
-            res = {"E": None, "C": None}
-        if r.returncode != 0 or res["E"] != "ok" or res["C"] is None:
-            what = "scenario did not complete (rc=%s, %s)" % (r.returncode, (r.stderr or "")[-200:])
+            os.remove(os.path.join(common.CACHE, "cases", name + ext))
+        except OSError:
+            pass
+    return ok, vals, raw
+
+
+ISOLATED = threading.Lock()
+
+
+def evaluate(scns, outs, dist=None):
+    """judge scenario runs: outs[i] = (CompletedProcess, parsed).  Returns dict(per = list over scenarios of dict(fails, mism),
+    nprobes, stacks, samples, fatal = mismatch list that concerns the whole evaluation)"""
+    dist = dist if dist is not None else new_dist()
+    per = [{"fails": [], "mism": []} for _ in scns]
+    fatal = []
+    body, book = [], []
+    for n, (s, (r, res)) in enumerate(zip(scns, outs)):
+        if not completed(r, res):
+            what = "scenario did not complete (rc=%s, %s%s)" % (r.returncode, res.get("E"), (", " + r.stderr[-200:]) if r.stderr else "")
             # a hang or crash of the library inside a legal scenario is a failure of the property's premises: report with the input
-            fails.append({"key": "frames/scenario-aborted", "what": what + ": " + " | ".join(s.text().split("\n")[:12]),
-                          "scenario": s.text(), "stdout_tail": r.stdout[-600:]})
+            per[n]["fails"].append({"key": "frames/scenario-aborted", "what": what + ": " + " | ".join(s.text().split("\n")[:12]),
+                                    "scn": s.to_dict(), "stdout_tail": r.stdout[-600:]})
             continue
         if res["C"][:5] != MODEL_CONSTS:
-            mism.append({"what": "object type constants differ from Model/Frames.v", "detail": {"library": res["C"][:5], "model": MODEL_CONSTS}})
+            per[n]["mism"].append({"what": "object type constants differ from Model/Frames.v", "detail": {"library": res["C"][:5], "model": MODEL_CONSTS},
+                                   "scn": s.to_dict()})
         if any(g[3] == -1 for g in res["G"]):
-            mism.append({"what": "a queue's realised target is not a queue of the table", "detail": res["G"]})
+            per[n]["mism"].append({"what": "a queue's realised target is not a queue of the table", "detail": res["G"], "scn": s.to_dict()})
             continue
         text, evals, meta = build_case(n, s, res)
         body.append(text)
@@ -463,38 +507,53 @@ def correspond_frames(ctx):
 
     def eval_chunk(ci):
         idxs = chunks[ci]
-        return driver.coq_eval("c18_frames_cases_%d" % ci, ["Word", "Frames"], "\n".join(body[i] for i in idxs), timeout=1200)
+        first = "Eval vm_compute in [LANE_TYPE; WORKLOOP_TYPE; META_TYPE_MASK; QUEUE_BASE_TYPEFLAG; QUEUE_MAIN_TYPE].\n" if ci == 0 else ""
+        return coq_eval_retry("c18_frames_cases_%d" % ci, ["Word", "Frames"], first + "\n".join(body[i] for i in idxs), 1200)
     with concurrent.futures.ThreadPoolExecutor(max_workers=4) as ex:
         evs = list(ex.map(eval_chunk, range(len(chunks))))
     vals = []
     for ci, (ok, v, raw) in enumerate(evs):
-        nexp = sum(book[i][3] for i in chunks[ci])
+        nexp = sum(book[i][3] for i in chunks[ci]) + (1 if ci == 0 else 0)
         if not ok or len(v) != nexp:
-            return {"mismatches": mism + [{"what": "model evaluation failed (coqc, c18_frames_cases_%d)" % ci, "detail": raw[-2500:]}],
-                    "failures": fails, "evaluations": 0, "distribution": dist}
+            fatal.append({"what": "model evaluation failed (coqc, c18_frames_cases_%d: %d values, %d expected)" % (ci, len(v), nexp), "detail": raw[-2500:]})
+            return {"per": per, "nprobes": 0, "stacks": set(), "samples": [], "fatal": fatal, "dist": dist}
+        if ci == 0:
+            # the constants Model/Frames.v really contains (evaluated by Coq), against the library's and against this file's copy
+            mc = driver.ints(v[0])
+            libc = book[0][2]["C"][:5] if book else None
+            if mc != MODEL_CONSTS or (libc is not None and mc != libc):
+                fatal.append({"what": "object type constants: Model/Frames.v (evaluated) / library / props file disagree",
+                              "detail": {"model_evaluated": mc, "library": libc, "props": MODEL_CONSTS}})
+            v = v[1:]
         vals += v
     vi = 0
     nprobes = 0
     stacks = set()
     samples = []
     for (n, s, res, evals, meta) in book:
+        fails, mism = per[n]["fails"], per[n]["mism"]
+        sd = s.to_dict()
         tg = {g[0]: g[3] for g in res["G"]}
         mi = 0
         for k, ph in enumerate(s.phases):
-            dump_model = sorted(zip(*[iter(driver.ints(vals[vi]))] * 3))
+            dm = driver.ints(vals[vi])
+            if len(dm) % 3:
+                mism.append({"what": "model dump of queue specifics is malformed", "detail": vals[vi][:300], "scn": sd})
+            dump_model = sorted(zip(dm[0::3], dm[1::3], dm[2::3]))
             dump_model = [t for t in dump_model if t != (0, 0, 0)]
             vi += 1
             dump_lib = res["D"][k] if k < len(res["D"]) else None
             dist["set_specific_calls"] += len(ph["sets"])
             if dump_lib != dump_model:
-                d = {"what": "dispatch_queue_get_specific after the set_specific sequence differs from Model/Frames.v (set_specific)",
-                     "detail": {"sets": ph["sets"], "library": dump_lib, "model": dump_model}}
-                mism.append(d)
+                mism.append({"what": "dispatch_queue_get_specific after the set_specific sequence differs from Model/Frames.v (set_specific)",
+                             "detail": {"sets": ph["sets"], "library": dump_lib, "model": dump_model}, "scn": sd})
                 fails.append({"key": "frames/set_specific", "what": "dispatch_queue_set_specific sequence %s leaves %s, the replace/remove "
-                              "rule gives %s" % (ph["sets"], dump_lib, dump_model), "scenario": s.text()})
+                              "rule gives %s" % (ph["sets"], dump_lib, dump_model), "scn": sd})
             flags_all = driver.ints(vals[vi])
             vi += 1
             nph = sum(1 for m in meta if m["phase"] == k)
+            if len(flags_all) != NFLAGS * nph:
+                mism.append({"what": "probe answers: %d flags for %d probes (%d each expected)" % (len(flags_all), nph, NFLAGS), "scn": sd})
             for j in range(nph):
                 m = meta[mi]
                 mi += 1
@@ -504,9 +563,9 @@ def correspond_frames(ctx):
                 dist["by_kind"][m["kind"]] = dist["by_kind"].get(m["kind"], 0) + 1
                 dist["by_api"][API_NAME[it["api"]]] = dist["by_api"].get(API_NAME[it["api"]], 0) + 1
                 dist["stack_depth"][str(p["nfr"])] = dist["stack_depth"].get(str(p["nfr"]), 0) + 1
-                hd = len(_chain(tg, m["top"]))
-                dist["hierarchy_depth"][str(hd)] = dist["hierarchy_depth"].get(str(hd), 0) + 1
                 ch = _chain(tg, m["top"])
+                hd = len(ch)
+                dist["hierarchy_depth"][str(hd)] = dist["hierarchy_depth"].get(str(hd), 0) + 1
                 if m["kind"] == "async":
                     inner = [q for q in ch[1:-1] if q not in p["fr"] and MAIN not in ch[:ch.index(q)]]
                     dist["frames_skipped_by_redirect"] += len(inner)
@@ -519,13 +578,13 @@ def correspond_frames(ctx):
                     dist["main_bottom_bound" if s.mode == "cf" else "main_bottom_unbound"] += 1
                 if p["asserted"]:
                     dist["asserted_probes"] += 1
-                    dist["assert_children"] += 2 * len(p["aq"])
+                    dist["assert_children"] += len(p["aq"]) + len(p["anq"])
                 stacks.add((m["kind"], hd, p["nfr"], tuple(1 if q in ch else 0 for q in p["fr"])))
                 if len(samples) < 6 and (nprobes % 37 == 1):
                     samples.append({"api": API_NAME[it["api"]], "queue": m["top"], "context": it["ctx"], "chain": ch,
                                     "observed_current_queue": p["cq"], "observed_frames": p["fr"], "get_specific": p["gs"], "flags": fl})
                 if len(fl) != NFLAGS:
-                    mism.append({"what": "probe answer missing", "detail": p})
+                    mism.append({"what": "probe answer missing", "detail": p, "scn": sd})
                     continue
                 badj = [i for i in JUDGE_FLAGS if fl[i] != 1]
                 badt = [i for i in TIE_FLAGS if fl[i] != 1]
@@ -537,58 +596,160 @@ def correspond_frames(ctx):
                 if badj:
                     fails.append({"key": "frames/%s/%s" % (m["kind"], "+".join(str(i) for i in badj)),
                                   "what": "violated: " + "; ".join(FLAG_NAMES[i] for i in badj) + " — " + desc,
-                                  "scenario": s.text(), "item": it["iid"], "probe": {k_: p[k_] for k_ in ("cq", "fr", "gs", "label", "aq", "anq", "same", "onmain")}})
+                                  "scn": sd, "item": it["iid"], "probe": {k_: p[k_] for k_ in ("cq", "fr", "gs", "label", "aq", "anq", "same", "onmain")}})
                 if badt:
                     mism.append({"what": "model and library differ: " + "; ".join(FLAG_NAMES[i] for i in badt), "detail": desc,
-                                 "scenario_head": s.text().split("\n")[:14], "item": it["iid"]})
+                                 "scn": sd, "item": it["iid"]})
         parts = split_top(vals[vi])
         vi += 1
+        if len(parts) != 4:
+            mism.append({"what": "scenario summary from the model is malformed", "detail": vals[vi - 1][:300], "scn": sd})
+            continue
         wf, posted, disposed, crash_model = parts[0], parts[1], parts[2], parts[3]
         if wf != [1]:
-            mism.append({"what": "generated hierarchy is not wf_graph (finite/acyclic listing)", "detail": res["G"]})
+            mism.append({"what": "generated hierarchy is not wf_graph (finite/acyclic listing)", "detail": res["G"], "scn": sd})
         zs = res["Z"]
         lib_posted = sorted(zs[0]) if zs else None
         lib_all = sorted(zs[1]) if len(zs) > 1 else None
         dist["destructor_calls"] += len(lib_all or [])
         if lib_posted != sorted(posted):
             fails.append({"key": "frames/destructor-on-replace", "what": "destructors run after the set_specific sequence: %s, the replace rule posts "
-                          "exactly %s" % (lib_posted, sorted(posted)), "scenario": s.text()})
-            mism.append({"what": "posted destructors differ from Model/Frames.v", "detail": {"library": lib_posted, "model": sorted(posted)}})
+                          "exactly %s" % (lib_posted, sorted(posted)), "scn": sd})
+            mism.append({"what": "posted destructors differ from Model/Frames.v", "detail": {"library": lib_posted, "model": sorted(posted)}, "scn": sd})
         if lib_all != sorted(posted + disposed):
             fails.append({"key": "frames/destructor-at-dispose", "what": "destructors run in total: %s, expected each value set with a destructor exactly "
-                          "once: %s" % (lib_all, sorted(posted + disposed)), "scenario": s.text()})
-            mism.append({"what": "destructors after release differ from Model/Frames.v", "detail": {"library": lib_all, "model": sorted(posted + disposed)}})
+                          "once: %s" % (lib_all, sorted(posted + disposed)), "scn": sd})
+            mism.append({"what": "destructors after release differ from Model/Frames.v", "detail": {"library": lib_all, "model": sorted(posted + disposed)}, "scn": sd})
+        nx = sum(1 for (w, q) in s.expect_crash if w == 1)
+        if len(res["X"]) != nx or len(crash_model) != nx:
+            mism.append({"what": "expected-crash probes: %d requested, library reported %d, model %d" % (nx, len(res["X"]), len(crash_model)), "scn": sd})
         for (xw, xq, xs), cm in zip(res["X"], crash_model):
             dist["expected_crashes"] += 1
             if (xs != 0) != (cm != 0):
-                mism.append({"what": "set_specific on a queue that does not admit specifics: crash status differs", "detail": {"queue": xq, "library": xs, "model": cm}})
+                mism.append({"what": "set_specific on a queue that does not admit specifics: crash status differs", "detail": {"queue": xq, "library": xs, "model": cm},
+                             "scn": sd})
+    if vi != len(vals):
+        fatal.append({"what": "model evaluation: %d values produced, %d consumed" % (len(vals), vi)})
+    return {"per": per, "nprobes": nprobes, "stacks": stacks, "samples": samples, "fatal": fatal, "dist": dist}
+
+
+def new_dist():
+    return {"scenarios": 0, "mode_cf": 0, "mode_dm": 0, "probes": 0, "asserted_probes": 0, "assert_children": 0,
+            "by_kind": {}, "by_api": {}, "stack_depth": {}, "frames_skipped_by_redirect": 0, "ran_on_main_thread": 0,
+            "nested": 0, "busy": 0, "hierarchy_depth": {}, "set_specific_calls": 0, "destructor_calls": 0, "expected_crashes": 0,
+            "workloop_bottom": 0, "main_bottom_bound": 0, "main_bottom_unbound": 0, "distinct_stacks": 0,
+            "rerun_in_isolation": 0, "rerun_cleared": 0}
+
+
+def run_isolated(exe, s):
+    """the isolation re-run of one scenario: alone (no other scenario of this check in flight), every limit x10"""
+    with ISOLATED:
+        r = run_scenario(exe, s, slow=10)
+    return (r, parse_safe(r))
+
+
+def correspond_frames(ctx):
+    exe, msg = common.build_harness("c18_frames", ["c18_frames.c"], whitebox=True)
+    if exe is None:
+        return {"mismatches": [{"what": "harness build failed (c18_frames)", "detail": msg}], "failures": [], "evaluations": 0}
+    rng = ctx.rng
+    nscn = 70 if ctx.tier == "quick" else 600
+    scns = corpus() + [gen_scenario(rng, i) for i in range(nscn)]
+    for s in scns:
+        set_wait_hints(s)
+    with concurrent.futures.ThreadPoolExecutor(max_workers=6) as ex:
+        outs = list(ex.map(lambda s: (lambda r: (r, parse_safe(r)))(run_scenario(exe, s)), scns))
+    ev = evaluate(scns, outs)
+    dist = ev["dist"]
+    dist["scenarios"] = len(scns)
+    # anything suspicious is re-run ONCE in isolation with generous limits before it is reported: scheduling under load (a slow
+    # destructor, a stalled process) must not become a verdict; a real defect is deterministic and shows again
+    suspects = [i for i, p in enumerate(ev["per"]) if p["fails"] or p["mism"]]
+    if suspects and not ev["fatal"]:
+        first = suspects[:12]
+        outs2 = [run_isolated(exe, scns[i]) for i in first]
+        ev2 = evaluate([scns[i] for i in first], outs2)
+        again = [j for j, p in enumerate(ev2["per"]) if p["fails"] or p["mism"]]
+        rest = suspects[12:]
+        if rest and not again:
+            outs3 = [run_isolated(exe, scns[i]) for i in rest]
+            ev3 = evaluate([scns[i] for i in rest], outs3)
+            for j, i in enumerate(rest):
+                ev["per"][i] = ev3["per"][j]
+            ev["fatal"] += ev3["fatal"]
+        for j, i in enumerate(first):
+            ev["per"][i] = ev2["per"][j]
+        ev["fatal"] += ev2["fatal"]
+        dist["rerun_in_isolation"] = len(suspects) if (rest and not again) else len(first)
+        dist["rerun_cleared"] = sum(1 for i in suspects if not (ev["per"][i]["fails"] or ev["per"][i]["mism"]))
+    mism = list(ev["fatal"])
+    fails = []
+    for p in ev["per"]:
+        mism += p["mism"]
+        fails += p["fails"]
+    nprobes = ev["nprobes"]
     dist["probes"] = nprobes
-    dist["distinct_stacks"] = len(stacks)
+    dist["distinct_stacks"] = len(ev["stacks"])
+    # floor: a run that measured nothing is a broken tie, not a pass
+    if nprobes == 0 and not mism:
+        mism.append({"what": "no probe was evaluated (no scenario completed / nothing reached the model)"})
+    if dist["asserted_probes"] == 0 and not mism and not fails:
+        mism.append({"what": "no dispatch_assert_queue probe was evaluated"})
     # de-duplicate failures by key (keep the first few of each)
     seen, uniq = {}, []
     for f in fails:
         seen[f["key"]] = seen.get(f["key"], 0) + 1
         if seen[f["key"]] <= 2:
             uniq.append(f)
-    return {"evaluations": nprobes, "distinct_nontrivial": len(stacks),
+    seenm, uniqm = {}, []
+    for m in mism:
+        seenm[m["what"]] = seenm.get(m["what"], 0) + 1
+        if seenm[m["what"]] <= 3:
+            uniqm.append(m)
+    return {"evaluations": nprobes, "distinct_nontrivial": len(ev["stacks"]),
             "rule": "generated hierarchies (2-10 queues, chain depth 1-6, fan-in <= 4, serial/concurrent lanes, workloops, global root queues, the "
                     "main queue serviced by _dispatch_main_queue_callback_4CF or released by dispatch_main()), keys set / re-set / removed at "
-                    "random levels (same key at several levels, NULL values, destructors), one item per submission through every path "
-                    "(async, barrier, group, dispatch_block_create, sync, barrier sync, async_and_wait, apply; from a plain thread, from the main "
-                    "thread, from inside other items; with and without contention). Inside each item: dispatch_get_specific for every key, "
-                    "the current queue label, the real frame stack, _dispatch_thread_frame_find_queue and (every third item) "
-                    "dispatch_assert_queue / dispatch_assert_queue_not in forked children for every queue of the table; all compared inside "
-                    "Coq with Model/Frames.v on the observed stack, with frames_of_path, and with the chain-level specification",
-            "samples": samples, "distribution": dist, "mismatches": mism[:40], "failures": uniq[:20]}
+                    "random levels (same key at several levels, NULL values, NULL key, destructors), one item per submission through every path "
+                    "(async, barrier, group, dispatch_block_create, after, notify, sync, barrier sync, async_and_wait, apply; from a plain thread, "
+                    "from the main thread, from inside other items incl. chains that intersect the context; with and without contention). "
+                    "Inside each item: dispatch_get_specific for every key, the current queue label, the real frame stack, "
+                    "_dispatch_thread_frame_find_queue and (every third item) dispatch_assert_queue / dispatch_assert_queue_not in forked "
+                    "children for every queue of the table; all compared inside Coq with Model/Frames.v on the observed stack, with the SET of "
+                    "stacks frames_of_path allows, and with the chain-level specification. Counts in `distribution` are what was measured; a "
+                    "scenario with any discrepancy is re-run once alone with 10x limits before it is reported",
+            "samples": ev["samples"], "distribution": dist, "mismatches": uniqm[:30], "failures": uniq[:20]}
 
 
 def replay_frames(ctx, f):
+    """re-run the recorded scenario (alone, generous limits) on the current build and re-judge it with the model.
+    1 = the recorded failure / mismatch shows again, 0 = it does not, 2 = nothing could be executed"""
+    if "scn" not in f:
+        print("this entry carries no scenario (%s): only a full ./check C18 re-establishes it" % str(f.get("what"))[:200])
+        return 2
     exe, msg = common.build_harness("c18_frames", ["c18_frames.c"], whitebox=True)
-    r = common.run([exe], input=f["scenario"], timeout=90)
-    print("scenario:\n" + f["scenario"])
-    print("library output (P lines: iid iter same-thread on-main tid current-queue label F frames K get_specific ...):")
-    for l in r.stdout.split("\n"):
-        if l.startswith("P %d " % f.get("item", -1)) or l[:1] in "DZXE":
-            print("  " + l[:400])
-    print("recorded: " + f["what"])
-    return 1
+    if exe is None:
+        print("harness build failed: " + msg[-500:])
+        return 2
+    s = Scn.from_dict(f["scn"])
+    out = run_isolated(exe, s)
+    ev = evaluate([s], [out])
+    if ev["fatal"]:
+        print("the model could not be evaluated: " + str(ev["fatal"][0])[:600])
+        return 2
+    now = ev["per"][0]
+    key = f.get("key")
+    if key:
+        hits = [x for x in now["fails"] if x["key"] == key] or [x for x in now["fails"] if x["key"].split("/")[:2] == key.split("/")[:2]]
+    else:
+        hits = [x for x in now["mism"] if x["what"] == f.get("what")] or now["mism"]
+    print("scenario:\n" + s.text())
+    print("recorded: " + str(f.get("what"))[:700])
+    if hits:
+        print("REPRODUCES: " + str(hits[0]["what"])[:900])
+        return 1
+    other = now["fails"] + now["mism"]
+    if other:
+        print("the recorded entry does not reproduce, but the scenario now shows: " + str(other[0]["what"])[:700])
+        return 1
+    print("does not reproduce (%d probes of the scenario re-judged, all agree)" % ev["nprobes"])
+    return 0
